@@ -130,21 +130,20 @@ def trigger_event_rules(A, fl, rule, cls_key='server'):
             if in_te or not any(isinstance(a, ast.Starred) for a in c.args):
                 n_retry += 1
                 cur, ok = n, False
+                texts = set()
                 while cur in pm:
                     par = pm[cur]
                     if isinstance(par, ast.If) and any(cur is st or _contains(st, cur)
                                                        for st in par.body):
+                        # conditions of all enclosing ifs count (one ``and`` or nested ifs)
                         t = par.test
                         conj = t.values if isinstance(t, ast.BoolOp) and \
                             isinstance(t.op, ast.And) else [t]
-                        texts = {txt(x) for x in conj}
-                        if "event == 'disconnect'" in texts and \
-                                ('len(args) == %d' % nargs) in texts:
-                            ok = True
-                            break
+                        texts |= {txt(x) for x in conj}
                     if isinstance(par, (ast.FunctionDef, ast.AsyncFunctionDef)):
                         break
                     cur = par
+                ok = "event == 'disconnect'" in texts and ('len(args) == %d' % nargs) in texts
                 # the retry passes everything but the reason
                 passed = [txt(a) for a in c.args]
                 ok_args = passed in ([], ['args[0]'], ['*args[:-1]'], ['*args[:1]']) and \
@@ -177,7 +176,8 @@ def trigger_event_rules(A, fl, rule, cls_key='server'):
               if txt(c['f']) in runners]
         inline = [i for i, e in enumerate(v.ev) if e.kind == 'call' and e.depth == 0 and
                   txt(unawait(e.expr).func) in runners]
-        ra = [pl for a, pl in v.guard_atoms() if a == "kwargs.pop('run_async', False)"]
+        ra = [pl for a, pl in v.guard_atoms() if a in ("kwargs.pop('run_async', False)",
+                                                       'run_async')]
         if not ra:
             A.undecided(rule + '.dispatch', '%s: dispatch mode guard recognised' % fl['name'],
                         A.site(fi), v.describe())
@@ -1556,6 +1556,13 @@ def disconnect_rules(A, fl, rule, block_rule=None):
             gb = set(atom(e.expr, e.pol) for e in v.ev[:i] if e.kind == 'guard')
             nonempty = ('self.sockets', True) in gb or ('len(self.sockets) == 0', False) in gb or \
                 ('+len(self.sockets) > 0', True) in gb or ('len(self.sockets)', True) in gb
+            # ... and the collection has one entry per session: a comprehension over the
+            # table without a filter (a filtered one can be empty although the table is not)
+            x = unawait(c['x'])
+            if isinstance(x, (ast.ListComp, ast.SetComp, ast.GeneratorExp)):
+                nonempty = nonempty and not any(g.ifs for g in x.generators) and \
+                    txt(x.generators[0].iter) in ('self.sockets.values()',
+                                                  'self.sockets.copy().values()')
             A.check(nonempty, rule + '.api-total', '%s disconnect() with no session at all '
                     'returns normally (asyncio.wait is not handed an empty collection)' % name,
                     A.site(fi, v.node(i)), key='%s-disconnect-empty-wait' % name,
@@ -2752,3 +2759,37 @@ def limit_sites_rule(A, rule):
                     behaviour='frames of exactly the limit (or multi-byte text below it) are '
                               'rejected by the gateway although the engine would accept them')
     A.floor(rule, 'aiohttp WebSocketResponse constructions', k, 1)
+
+
+def asgi_header_codec_rule(A, rule):
+    """The ASGI driver decodes request header values and encodes response header values with
+    the same codec: CORS reflects request values (Origin, Access-Control-Request-Headers)
+    into response headers, so whatever was decoded must be encodable again."""
+    tr = A.func('async_drivers.asgi.translate_request')
+    mr = A.func('async_drivers.asgi.make_response')
+
+    def codecs(fn, meth, about):
+        out = []
+        for n in ast.walk(fn.node):
+            if isinstance(n, ast.Call) and isinstance(n.func, ast.Attribute) and \
+                    n.func.attr == meth and about(ast.unparse(n.func.value)):
+                c = n.args[0] if n.args else next((k.value for k in n.keywords
+                                                   if k.arg == 'encoding'), None)
+                out.append((n, ast.literal_eval(c) if isinstance(c, ast.Constant) else
+                            ('utf-8' if c is None else None)))
+        return out
+    dec = codecs(tr, 'decode', lambda t: 'hdr_' in t or 'header' in t.lower())
+    enc = codecs(mr, 'encode', lambda t: t.startswith('h[') or 'header' in t.lower())
+    if not dec or not enc:
+        raise AnalysisError('%s: header (de)coding sites of the ASGI driver not found' % rule)
+
+    def norm(c):
+        return None if c is None else c.lower().replace('_', '-')
+    dset = {norm(c) for _n, c in dec}
+    for n, c in enc:
+        A.check(norm(c) in dset and len(dset) == 1, rule + '.header-codec',
+                'ASGI: response headers are encoded with the codec request headers are decoded '
+                'with (%s)' % sorted(x for x in dset if x), A.site(mr, n),
+                key='asgi-header-codec', detail=ast.unparse(n),
+                behaviour='a request whose Origin / Access-Control-Request-Headers value is '
+                          'outside that codec makes make_response raise: no response at all')
